@@ -208,6 +208,14 @@ func read(r *mon.Run, id string, w []byte) (*bundle.Bundle, error) {
 	case 4:
 		src = bytes.NewBuffer(mem)
 	}
+	if readNo%11 == 7 {
+		// the bundle starts somewhere inside a seekable source: Read begins where the reader stands
+		prefix := append([]byte("\x86\x48\xf0\x9f\x8c\x90\xf0\x9f\x93\xa6 not the bundle "), mem[:len(mem)/3]...)
+		mem = append(prefix[:len(prefix):len(prefix)], mem...)
+		rd := bytes.NewReader(mem)
+		rd.Seek(int64(len(prefix)), io.SeekStart)
+		src = rd
+	}
 	p, pv := r.Call(id, w, func() { b, err = bundle.Read(src) })
 	for i := range mem {
 		mem[i] = 0xCC
